@@ -269,6 +269,15 @@ class CommentStyle:
                 if line.rstrip().endswith(cls.MULTI_LINE.end):
                     end = i
                     break
+                # The block closes in the middle of a line. What follows
+                # the delimiter is not part of the comment, so there is no
+                # block of whole lines here.
+                if cls.MULTI_LINE.end in (
+                    line[len(cls.MULTI_LINE.start) :] if i == 0 else line
+                ):
+                    raise CommentParseError(
+                        "Comment block delimits in the middle of a line"
+                    )
 
         if end is None and cls.can_handle_single():
             for i, line in enumerate(lines):
